@@ -113,6 +113,7 @@ def generate(tier, seed, work, stats):
         cases.append(dict(prods=prods, vpool="upper", tpool="ab", family="random"))
     for c in cases:
         c["L"] = L(tier)
+    cases += [c for c in core.record_tests(["/repo/pyformlang"], work, {"contains", "generate_epsilon"}, stats) if "G" in c["recorded"][0]]
     return cases
 
 
